@@ -4,17 +4,73 @@ import Tuc.Model.RegexLit
 import Tuc.Model.LibLit
 import Tuc.Model.BoundsListLit
 /-!
-# Tuc.Model.WholeLit2 — the whole program, one level deeper
+# Tuc.Model.WholeLit2 — the whole program, one level deeper: the callees of the literal pieces too
 
 `Tuc.Model.WholeLit.tucProgramLit` assembles the program from the statement-level transcriptions of
-the Rust functions, but FOUR groups of callees are still called through their normal-form models
-inside a literal piece (see the header of `Tuc.Model.WholeLit`).  This file defines
+the Rust functions, but four groups of callees are still called through their NORMAL-FORM models
+inside a literal piece (the list at the end of the header of `Tuc.Model.WholeLit`), each with a
+statement-level transcription and a refinement theorem of its own elsewhere.  This file defines
 
     tucProgramLit2 (align : Bytes → Nat) (regexOk : Arg → Bool) (argv : List Arg) (segs : List Bytes) : MainResult
 
-= `tucProgramLit` in which those callees are replaced by THEIR statement-level transcriptions, by
-copying the frozen definition of every affected piece and substituting the callee.
-(work in progress: see the table at the end of this header for what is substituted)
+= `tucProgramLit` with those callees replaced by THEIR statement-level transcriptions.  Every affected
+piece is a COPY of the frozen definition (same statements, same line numbers in the trailing
+comments) in which only the callee is substituted; the name is the old one with a `2`.
+
+| piece (copy of) | callee in `Tuc.Model.WholeLit` (normal form) | callee here (statement level) |
+|---|---|---|
+| `fillWithFieldsLocationsLoop2`, `compressDelimiterLoop2` (`Tuc.Model.TextLoops`) | `findIter` = `line.find_iter(d)` | `findIterLit`: `memmem::FindIter::next` (`TextLoops.findIterLoop`) collected |
+| `trimStage2` (`CutStrLit.trimStage`, cut_str.rs:280-291) | `trimLiteral`, `trimRegex` | `trimLoop`, `RegexLit.trimRegexLit` |
+| `compressStage2` (l.300-330) | `compressDelimiter`, `replaceMatches` | `compressDelimiterLoop2`, `RegexLit.compressDelimiterWithRegexLit` (`Regex::replace_all` → `replacen`, regex 1.11.1) |
+| `fieldsStage2` (l.332-355) | `fillWithFieldsLocations[Greedy]`, `fillWithFieldsLocationsUsingRegex` | `fillWithFieldsLocations[Greedy]Loop2`, `RegexLit.fillWithFieldsLocationsUsingRegexLit` |
+| `fieldToPrint2` / `fieldOfRange2` (l.416-434) | `CutStrLit.maybeReplaceDelimiterLit` (calls `replaceMatches`) | `RegexLit.maybeReplaceDelimiterLit` (calls the literal `replace_all`) |
+| `writeMaybeAsJsonLit2` (l.247-258) | `validUtf8`, `jsonString` | `LibLit.writeAsJsonLit`: core's `run_utf8_validation` + serde_json's `to_string` |
+| `emitStage2` (l.357-455) | `complementList`, `unpackList` | `complementLit`, `unpackLit`: `BoundsListLit.UserBoundsListL.complement` / `unpack` on `i32` bounds |
+| `cutLinesWhole2`, `readLineWithEolSeg2` (cut_lines.rs:132, read_utils.rs:25/31) | `validUtf8` | `LibLit.fromUtf8IsOk` |
+| `readAndCutLinesWhole2` (cut_lines.rs:159-160) | `isForwardOnly` | `isForwardOnlyLit`: `UserBoundsListL.isForwardOnly` (`is_sortable`, `is_sorted`, the `PartialOrd` impls, `has_negative_indices`) |
+| `innerBody2` (`LinesLoop.innerBody`, cut_lines.rs:55) | `UserBounds.matches` | `matchesLit`: `BoundsLit.UserBoundsL.matches` on `i32`s |
+| `cutBytesBody2` (`ReadLoops.cutBytesBody`, cut_bytes.rs:15) | `UserBounds.tryIntoRange` | `BoundsLit.UserBoundsL.tryIntoRange` (`parts_length as i32`, checked sums) |
+| `outputPartsLit2` / `outputOf2` (`FastLoop.outputPartsLit`, fast_lane.rs:103) | `UserBounds.tryIntoRange` | `BoundsLit.UserBoundsL.tryIntoRange` |
+| `forBody2`, `remainingData2`, `afterNewChunk2` (`Tuc.Model.StreamLoop`, stream.rs:326/373/398) | `StreamLoop.printBofCall` (→ `printBof` of `Tuc.Model.Stream`) | `OptLit.printBofLit` (stream.rs:185-233 with `print_field`), `OptLit.printFillerOrFallbacksOf` |
+| `parseWith2` (`parseWith`, tuc.rs:48-256) | `boundsListOfString` | `boundsArg2`: `BoundsListLit.fromStrLit` (the scanner `parse_bounds_list` with byte offsets and checked slices, `UserBounds::from_str`, `str::parse::<i32>`, `From<Vec<BoundOrFiller>>`) |
+
+and the pieces that only pass the substituted callee on (`outputClosure2`, `tryForEach2`, `cutStrLit2`,
+`cutStrLitClosure2`, `readAndCutStrWhole2`, `innerWhile2`, `readWhileSeg2`, `cutLinesForwardOnlyWhole2`,
+`cutBytesLit2`, `readAndCutBytesLoop2`, `fastTryForEach2`, `afterScan2`, `cutStrFastLaneLoop2`,
+`fastLaneClosure2`, `readAndCutTextAsBytesWhole2`, `forLoop2`, `chunkBody2`, `whileStep2`, `newChunk2`,
+`cutBytesStreamLoop2`, `readAndCutBytesStreamWhole2`, `parseArgv2`, `dispatchWhole2`, `tucRunWhole2`).
+
+`Tuc.Props.WholeLit2` proves `tucProgramLit2_eq_tucProgramLit` and `tucProgramLit2_eq : InDomain2 … →
+tucProgramLit2 align regexOk argv segs = tucMain regexOk argv segs` (every `align`).
+
+## Conventions added to those of `Tuc.Model.WholeLit`
+
+* `Res4` = `Res` (`ok` / `fail` = `Err` / `panic`) + `Outcome` (`ok` / `panic` / `hang`): a stage of
+  `cut_str` whose callees are loops with fuel can also `hang`;
+* **the model's bounds are stored in `i32`s before a machine-integer callee runs** and read back
+  afterwards (`BoundsLit.boundsOfModel`, `BoundsListLit.listOfModel`, `…toModel`), exactly as
+  `CutStrLit.resolve` does: `Opt` (frozen, `Tuc.Model.Options`) keeps `Int` sides.  Faithful when the
+  sides fit an `i32`, which `parse_args` guarantees (`CutStrLitProps.boundsOk_of_parseArgv`);
+  `line_idx: i32` of `cut_lines_forward_only` is stored with `I32.wrap` (`matchesLit`);
+* **`align : Bytes → Nat`** answers `v.as_ptr().align_offset(USIZE_BYTES)` (validations.rs:136-143)
+  for every slice handed to `std::str::from_utf8` / `String::from_utf8` / `read_line`: the address
+  of a slice is not modelled (`Tuc.Model.LibLit`), so it is a parameter of the program, and the
+  theorems hold for EVERY such function (`usize::MAX` included).
+
+## What is still called through a normal-form model
+
+* **`-M`: `UserBounds::matches` inside `print_bof` (stream.rs:208) and `print_filler_or_fallbacks`
+  (l.255)** is `UserBounds.matches` over `Int` (`BoundsLit.matches_eq` is its refinement).  The
+  frozen `Tuc.Model.StreamLoop` keeps `curr_field` in an unbounded `Int` (l.364 `curr_field += 1`
+  unchecked), so storing it in an `i32` for `matches` would need a bound on the number of fields of a
+  record that the loop does not have; not done;
+* inside `TextLoops.greedyWhile` / `greedySkip` / `trimLeftWhile` …: `haystack.find(needle)`,
+  `starts_with`, `ends_with` are `TextLoops.find`, `List.isPrefixOf`, `List.isSuffixOf` (library
+  functions modelled by what they compute); `memchr`, `memchr_iter`, `memchr2_iter`,
+  `trim_start_with` / `trim_end_with` likewise; `Regex::find_iter` is the function stored in
+  `RegexBag`; `text.replace(d, r)` of `maybe_replace_delimiter` l.158 is `Tuc.replaceAll`;
+* the regex COMPILER and matcher (`compileBag`, `Re.parse`, `Re.bag`) and pico_args
+  (`picoOps`) are as in `tucProgramLit`.
 -/
 
 namespace Tuc
